@@ -36,3 +36,26 @@ def sig(prop, clause, op, cfg, extra=""):
     kind = op[0] if op else "initial"
     how = f"-{op[2]}" if op and op[0] == "remove" else ""
     return f"{prop}:{clause}:{kind}{how}:N{cfg.n}{(':' + extra) if extra else ''}"
+
+
+def make_chain_run(modname, observe_name):
+    def _chain(cfg_w):
+        import importlib
+
+        mod = importlib.import_module(modname)
+        cfg = kdriver.Config.from_witness(cfg_w)
+        acc = core.Acc()
+        kdriver.explore_chains(cfg, getattr(mod, observe_name), acc, depth=3)
+        return acc
+
+    return _chain
+
+
+def chain_configs(tier):
+    return [c for c in kdriver.configs(tier) if c.n <= 2 and c.nvar <= 2][:3 if tier == "quick" else 8]
+
+
+def replay_any(w, observe):
+    if w.get("chain"):
+        return kdriver.replay_chain(w, observe)
+    return replay(w, observe)
